@@ -95,14 +95,15 @@ fn err_is_witness_condition(class: &str) -> bool {
     matches!(class, "other:assert" | "other:underflow" | "other:cannot-convert" | "other:zero-modulus")
 }
 
-/// Names of Jubjub scalars produced by `FromBytes(JubjubScalar)` from 32 bytes or more.
+/// Names of Jubjub scalars produced by `FromBytes(JubjubScalar)` from no byte or from 32 bytes
+/// or more: in-circuit they are published as `ceil(8n/254)` elements of raw bits.
 fn long_scalars(prog: &[Instruction], trace: &[(Vec<IrValue>, Vec<IrValue>)]) -> Vec<String> {
     let mut out = vec![];
     for (k, i) in prog.iter().enumerate() {
         if i.operation == Operation::FromBytes(IrType::JubjubScalar) {
             if let Some((iv, _)) = trace.get(k) {
                 if let Some(IrValue::Bytes(b)) = iv.first() {
-                    if b.len() >= 32 {
+                    if b.len() >= 32 || b.is_empty() {
                         out.extend(i.outputs.clone());
                     }
                 }
@@ -367,7 +368,7 @@ pub fn run_case(c: &Case, with_mock: bool) -> Outcome {
                         };
                         if attributable {
                             fail(
-                                "KNOWN-CLASS C18:N7-jubjub-scalar-from-32-or-more-bytes-published off-circuit evaluation succeeds but the compiled circuit rejects its public inputs: a Jubjub scalar built by FromBytes from >= 32 bytes is published as its raw bits in-circuit and as its reduced value off-circuit",
+                                "KNOWN-CLASS C18:N7-published-jubjub-scalar-from-0-or-32-or-more-bytes off-circuit evaluation succeeds but the compiled circuit rejects its public inputs: a Jubjub scalar built by FromBytes from n = 0 or n >= 32 bytes is published in-circuit as ceil(8n/254) elements of raw bits and off-circuit as one element (the value reduced modulo the group order)",
                                 json!({"mock": v}),
                             );
                         } else {
